@@ -80,6 +80,17 @@ CHECKS["C19"] = dict(
     design_ref="6/C19",
     technique="TLA+ model (Agents.tla) checked by TLC + TLC trace validation of every scripted agent's recorded history and kill-chain stage",
 )
+CHECKS["C01"] = dict(
+    category="model_checking",
+    text="Episode.tla: the step/reset pipeline (pre-tick, one action record per agent in declaration order, exactly one tick, return values, reset to a fresh episode); TLC "
+    "exhausts all schedules of steps of each action class and resets (mid-episode, past truncation, consecutive episodes; <=3 agents, maxLen<=3) incl. liveness (every "
+    "step returns). TLC schedules are replayed on PrimaiteGymEnv for every shipped scenario incl. the three episode-scheduled directories, on the agent-free network "
+    "examples through PrimaiteGame.step(), and on generated scenarios whose proxy agent's action map is drawn from all 59 action types incl. entries aimed at missing "
+    "components; the pipeline events recorded by wrappers are validated by TLC against EpisodeTrace.tla (no raise, observation returned, finite reward, terminated false, "
+    "truncated iff max reached, one tick, one record with a documented response per agent, reset starts afresh).",
+    design_ref="6/C01",
+    technique="TLA+ model (Episode.tla) checked by TLC incl. liveness + TLC schedules replayed on real environments + TLC trace validation of the step pipeline",
+)
 
 REASON_TODO = "check not built yet in this session (planned, see DESIGN.md 10); nothing is claimed for it"
 
